@@ -490,6 +490,10 @@ def draw_swarm(rng):
 def gen_scenario(seed, tier="quick"):
     rng = core.sub_rng(seed, "c15.sched")
     sw = draw_swarm(core.sub_rng(seed, "c15.swarm"))
+    if tier == "thorough" and core.sub_rng(seed, "c15.tier").random() < 0.4:
+        # deeper bounds in the thorough tier: longer histories on more VMs
+        sw["ops"] = core.sub_rng(seed, "c15.tier2").choice([120, 200, 300])
+        sw["max_vms"] = 4
     if sw["deep_rec"] and sw["calls"]:
         # many defined failures deep inside nested activations, on few VMs, in one long history
         sw.update(fault_sites=0.7, fault_rate=0.5, ops=80, max_vms=rng.choice([1, 1, 2]), p_lifecycle=0.0, p_set=0.05)
@@ -530,7 +534,7 @@ def gen_scenario(seed, tier="quick"):
         c = rng.random()
         if c < sw["p_lifecycle"]:
             k = rng.random()
-            if k < 0.45 and total_created < 5 and len(live) < 4:
+            if k < 0.45 and total_created < (8 if tier == "thorough" else 5) and len(live) < 4:
                 new_vm(1 if (sw["second_program"] and rng.random() < 0.4) else 0)
                 total_created += 1
             elif k < 0.7 and len(live) > 1:
